@@ -84,25 +84,25 @@ but never answers the TLS ClientHello is not abandoned when its request gives up
 it for later requests) and — without a handshake timeout — never ends: it holds its slot for
 ever. `limit = none` is an unbounded pool (`MaxConnsPerHost` unset / 0). -/
 
-structure Pool where
+structure ConnPool where
   limit : Option Nat      -- MaxConnsPerHost (none = unlimited)
   hung  : Nat             -- dials stuck in their handshake, each holding a slot for ever
   deriving Repr, DecidableEq
 
 /-- may a new request start a dial of its own? -/
-def Pool.canDial (p : Pool) : Bool :=
+def ConnPool.canDial (p : ConnPool) : Bool :=
   match p.limit with
   | none => true
   | some l => decide (p.hung < l)
 
 /-- one request against an upstream that is `healthy` for NEW connections or hangs them in the
 handshake (`hang`): result (answered?) and the pool afterwards -/
-def Pool.request (p : Pool) (healthy : Bool) : Bool × Pool :=
+def ConnPool.request (p : ConnPool) (healthy : Bool) : Bool × ConnPool :=
   if !p.canDial then (false, p)                              -- waits for a slot until its deadline
   else if healthy then (true, p)                             -- fresh connection, answered
   else (false, { p with hung := p.hung + 1 })                -- this dial hangs, the request times out
 
-def Pool.run (p : Pool) : List Bool → List Bool × Pool
+def ConnPool.run (p : ConnPool) : List Bool → List Bool × ConnPool
   | [] => ([], p)
   | h :: hs =>
     let (a, p') := p.request h
